@@ -318,7 +318,8 @@ def _ok(key, v):
 A_SEL = 5      # existing entry: 0 absent, 1 file, 2 directory, 3 unknown, 4 read-only file
 N_SEL = 5      # new child: 0 file, 1 directory, 2 unknown, 3 read-only file, 4 read-only directory
 SHAPES = 4     # old metadata: 0 tahoe{linkcrtime,linkmotime}+ctime, 1 ctime only, 2 tahoe{linkmotime}+ctime, 3 neither
-NM_SEL = 7     # caller's metadata: 0 None, 1 {user2}, 2 +forged tahoe, 3 +no-write False, 4 +no-write True, 5 +no-write True +forged tahoe, 6 {} (empty dict)
+NM_SEL = 8     # caller's metadata: 0 None, 1 {user2}, 2 +forged tahoe, 3 +no-write False, 4 +no-write True, 5 +no-write True +forged tahoe, 6 {} (empty dict),
+               # 7 a copy of the user metadata the entry under U+00C5 has right now (a 'no change' request; {} when there is no such entry)
 
 
 def _a_kind_ro(a):
@@ -353,7 +354,14 @@ def _shape_md(shape, ctime, lcr, lmo, user):
     return _old_md(False, ctime, False, False, lcr, lmo, user)
 
 
-def _sel_new_md(nm, nt, u_new):
+def _sel_new_md(nm, nt, u_new, model=None):
+    if nm == 7:
+        out = {}
+        if model is not None and T in model:
+            for k in model[T][3]:
+                if k != "tahoe":
+                    out[k] = model[T][3][k]
+        return out
     if nm == 0:
         return None
     if nm == 1:
@@ -441,7 +449,7 @@ def h_adder(ow: int, raw: int, a: int, shape: int, n: int, nm: int, use_set_node
     node = _Codec()
     (n_kind, n_ro) = _n_kind_ro(n)
     child = _mkchild(n_kind, b"new", n_ro)
-    newmd = _sel_new_md(nm, nt, u_new)
+    newmd = _sel_new_md(nm, nt, u_new, model)
     ron = _RONode()
     _Clock.now = now
     if use_set_node:
@@ -551,7 +559,7 @@ def h_mdsetter(raw: int, a: int, shape: int, nm: int, with_ron: bool, first_time
     packed, model = _prestate(a, _shape_md(shape, ctime, lcr, lmo, u_old))
     before = _snap(packed)
     node = _Codec()
-    newmd = _sel_new_md(nm, nt, u_new)
+    newmd = _sel_new_md(nm, nt, u_new, model)
     ron = _RONode() if with_ron else None
     _Clock.now = now
     ms = D.MetadataSetter(node, _pick(RAW, raw), newmd, create_readonly_node=ron)
@@ -750,7 +758,7 @@ def h_dir_ops(op: int, raw: int, ow: int, a: int, shape: int, n: int, nm: int, r
     name = _pick(NFC, raw)
     rawname = _pick(RAW, raw)
     child = _mkchild(n_kind, b"new")
-    newmd = _sel_new_md(nm, 0, u_new)
+    newmd = _sel_new_md(nm, 0, u_new, model)
     want = None      # None = success; else the exception class
     removed = None
     if op == 0:
